@@ -2,6 +2,7 @@ import Driver.Util
 import Verif.Model.MptEnc
 import Verif.Model.MptCodec
 import Verif.Model.MptPartial
+import Verif.Model.DeadNodes
 /-! Model driver for the codec suites c14, c15mpt, c17 (op languages: go/harness/suite_c14.go, suite_c15mpt.go,
     suite_c17.go).  `modeld codec`. -/
 namespace Driver.Codec
@@ -82,6 +83,34 @@ def decLine (bs : Bytes) : String :=
   | .err => "err"
   | .panic => "panic"
 
+/-! c15mpt dead-node records -/
+
+def asciiHex (b : Bytes) : Bytes := (hex b).toList.map (fun c => UInt8.ofNat c.toNat)
+
+/-- `dnenc`: RecordDeadNodes of the decoded nodes: keys = GetHash() (hex of the hash; empty for a value node without
+    value), distinct, sorted, all `true` -/
+def dnencLine (encs : List Bytes) : String :=
+  let keys := encs.mapM (fun e => match decode e with
+    | .ok r => some (if hasHash r then asciiHex (sha3 (hashBytes r)) else [])
+    | _ => none)
+  match keys with
+  | none => "err"
+  | some ks =>
+    let ks := dedupSorted (sortBytes ks)
+    "ok " ++ hex (Verif.DeadNodes.encode (ks.map (fun k => (k, true))))
+
+/-- `dndec`: records of rounds 1..n; a record that decodes with hex keys only is dropped and its keys deleted -/
+def dndecLine (planted : List Bytes) (recs : List Bytes) : String :=
+  let res := recs.map Verif.DeadNodes.pruneKeys
+  let left := (List.range recs.length).filter (fun i => match res[i]? with | some none => true | _ => false)
+  let dead := (res.filterMap id).flatten
+  let nodes := planted.filter (fun k => !dead.contains k)
+  "ok left=" ++ (if left.isEmpty then "-" else ",".intercalate (left.map (fun i => toString (i + 1))))
+    ++ " nodes=" ++ fmtKeys nodes
+
+def unhexList (s : String) : Option (List Bytes) :=
+  if s = "-" then some [] else (s.splitOn ",").mapM unhex
+
 /-! c17 -/
 
 def fuelOf (s : St) : Nat := s.full.length + 2
@@ -152,6 +181,25 @@ def step (s : St) (w : List String) : St × String :=
       let (t', o) := Trie.delete s.v s.t p
       ({ s with t := t', used := pathBytes p :: s.used, touched := none }, outcome t' o)
     | none => (s, "bad-op")
+  | ["insstr", p, b] =>
+    match parsePath p, unhex b with
+    | some p, some b =>
+      let (t', o) := Trie.insert maxSize s.v s.t p (Verif.DeadNodes.appendString b)
+      ({ s with t := t', used := pathBytes p :: s.used, touched := none }, outcome t' o)
+    | _, _ => (s, "bad-op")
+  | ["val", p] =>
+    match parsePath p with
+    | some p =>
+      ({ s with used := pathBytes p :: s.used },
+        match lookup s.t p with
+        | none => "notpresent"
+        | some b =>
+          let str := match Verif.DeadNodes.readString b with
+            | .ok (v, _) => if v.isEmpty then "-" else hex v
+            | _ => "err"
+          let vn := valueNode b
+          "ok " ++ hex b ++ " str=" ++ str ++ " vn=" ++ hex (encode vn) ++ " h=" ++ hex (sha3 (hashBytes vn)))
+    | none => (s, "bad-op")
   | ["layer"] => (s, "ok")
   | ["touch", v] => ({ s with touched := some v.toNat! }, "ok")
   | ["store"] => (s, storeLine s.t s.touched)
@@ -160,6 +208,14 @@ def step (s : St) (w : List String) : St × String :=
     match unhex b with
     | some bs => (s, decLine bs)
     | none => (s, "bad-op")
+  | ["dnenc", l] =>
+    match unhexList l with
+    | some encs => (s, dnencLine encs)
+    | none => (s, "bad-op")
+  | "dndec" :: ks :: recs =>
+    match unhexList ks, recs.mapM (fun r => unhex (if r.startsWith "=" then (r.drop 1).toString else r)) with
+    | some planted, some rs => (s, dndecLine planted rs)
+    | _, _ => (s, "bad-op")
   | "prune" :: _ => (s, "ok")
   | "prunex" :: _ => (s, "ok")
   | ["snap"] =>
